@@ -824,3 +824,62 @@ pub fn x_all_ticks_atomic_enumerate<'a>(a: S<'a, u32>) {
         .end_atomic()
         .embedded_output("out");
 }
+
+// ------------------------------------------------------------------ round 6: remaining pure-dataflow nodes
+// Difference (filter_not_in), CrossProduct (cross_product_nested_loop), SingletonSource
+// (tick.singleton / optional_first_tick), PartitionShared / PartitionSide (partition).
+
+pub fn t_difference<'a>(a: S<'a, u32>, b: S<'a, u32>) {
+    let (ba, bb) = b2(a, b);
+    ba.filter_not_in(bb).all_ticks().embedded_output("out");
+}
+
+// NOTE: `a.filter_not_in(source_iter(..))` on an UNBOUNDED `a` cannot be built: Stream::filter_not_in
+// records `Bounded` in the node metadata whatever B is, and Stream::new's debug assertion
+// (collection_kind of the node == collection_kind of the type) panics (finding, see
+// /verif/fixes/C28_filter_not_in_metadata.diff).  The top-level Difference node is therefore
+// exercised on a Bounded positive side.
+pub fn f_difference_b<'a>(a: S<'a, u32>) {
+    let pos = a.location().source_iter(q!(vec![1u32, 2u32, 3u32, 2u32]));
+    let neg = a.location().source_iter(q!(vec![1u32, 3u32]));
+    pos.filter_not_in(neg)
+        .cross_product(a)
+        .assume_ordering::<TotalOrder>(nondet!(/** observation only */))
+        .embedded_output("out");
+}
+
+pub fn t_cross_nested<'a>(a: S<'a, u32>, b: S<'a, u32>) {
+    let (ba, bb) = b2(a, b);
+    ba.cross_product_nested_loop(bb)
+        .all_ticks()
+        .embedded_output("out");
+}
+
+pub fn t_singleton_const<'a>(a: S<'a, u32>) {
+    let (tick, ba) = b1(a);
+    ba.cross_singleton(tick.singleton(q!(5u32)))
+        .all_ticks()
+        .embedded_output("out");
+}
+
+pub fn t_first_tick<'a>(a: S<'a, u32>) {
+    let (tick, ba) = b1(a);
+    tick.optional_first_tick(q!(9u32))
+        .into_stream()
+        .chain(ba)
+        .all_ticks()
+        .embedded_output("out");
+}
+
+pub fn f_partition<'a>(a: S<'a, u32>) {
+    let (odd, even) = a.partition(q!(|x| *x % 2 == 1));
+    odd.map(q!(|x| x * 2 + 1))
+        .merge_unordered(even.map(q!(|x| x + 100)))
+        .assume_ordering::<TotalOrder>(nondet!(/** observation only */))
+        .embedded_output("out");
+}
+
+// NOTE: using only ONE side of `partition` (`let (odd, _even) = a.partition(..); odd...`) does not
+// build: "`partition` must have at least 2 output(s), actually has 1" (DFIR flat graph
+// diagnostics, hydro_lang/src/compile/built.rs:62) -- a well-typed safe program that the code
+// generator rejects (reported for C41).
